@@ -41,17 +41,17 @@ func init() {
 	sim.Register(&sim.Scenario{Prop: "C14", Name: "ipfsdht", Weight: 4, Run: runC14DHT,
 		Real:   []string{"dht.New / IpfsDHT.Close", "rtPeerLoop, fixLowPeers loop, persistRTPeersInPeerStore, network subscriber", "rtrefresh.RtRefreshManager (Start/loop/Refresh/Close)", "records.ProviderManager, records.ValueStore (GC loops, Close) through the DHT", "lookups, PutValue/GetValue/SearchValue/Provide/FindProviders/FindPeer in flight", "handleNewStream handlers in flight (server mode)"},
 		Stub:   stub,
-		Faults: append([]string{"fault_rpc_error", "probe_close_during_refresh", "probe_close_handler_inflight", "probe_close_lookupcheck_inflight", "probe_mode_switch", "probe_cfg_providers_disabled", "probe_cfg_values_disabled", "probe_cfg_separate_ds", "probe_cfg_autorefresh", "probe_cfg_optprov", "probe_cfg_server"}, c14CommonFaults...),
+		Faults: append([]string{"fault_rpc_error", "probe_close_during_refresh", "probe_close_handler_inflight", "probe_close_lookupcheck_inflight", "probe_mode_switch", "probe_cfg_providers_disabled", "probe_cfg_values_disabled", "probe_cfg_separate_ds", "probe_cfg_autorefresh", "probe_cfg_optprov", "probe_cfg_server"}, append(c14OverlapFaults, c14CommonFaults...)...),
 	})
 	sim.Register(&sim.Scenario{Prop: "C14", Name: "dual", Weight: 2, Run: runC14Dual,
 		Real:   []string{"dual.New / dual.DHT.Close", "two IpfsDHT instances (WAN/LAN) with dual's filters", "dual.DHT routing operations in flight (parallel WAN/LAN)"},
 		Stub:   stub,
-		Faults: append([]string{"fault_rpc_error", "probe_close_during_refresh", "probe_cfg_autorefresh", "probe_cfg_server"}, c14CommonFaults...),
+		Faults: append([]string{"fault_rpc_error", "probe_close_during_refresh", "probe_cfg_autorefresh", "probe_cfg_server"}, append(c14OverlapFaults, c14CommonFaults...)...),
 	})
 	sim.Register(&sim.Scenario{Prop: "C14", Name: "fullrt", Weight: 2, Run: runC14FullRT,
 		Real:   []string{"fullrt.NewFullRT / FullRT.Close", "runCrawler, runSubscriber", "crawler.DefaultCrawler.Run (drawn: real crawler over the parking sender, or a stub)", "FullRT routing operations in flight", "records.ProviderManager / ValueStore through FullRT"},
 		Stub:   stub,
-		Faults: append([]string{"fault_rpc_error", "probe_close_during_crawl", "probe_cfg_real_crawler", "probe_cfg_providers_disabled", "probe_cfg_values_disabled", "probe_table_filled"}, c14CommonFaults...),
+		Faults: append([]string{"fault_rpc_error", "probe_close_during_crawl", "probe_cfg_real_crawler", "probe_cfg_providers_disabled", "probe_cfg_values_disabled", "probe_table_filled"}, append(c14OverlapFaults, c14CommonFaults...)...),
 	})
 }
 
@@ -481,6 +481,7 @@ func runC14DHT(s *sim.Sim) {
 	}
 	f.afterClose = in.reset
 	f.closeFn = d.Close
+	f.overlapOK = true
 	f.closeAt = s.Range("close-at", 0, 45)
 	f.interleave = s.Draw("interleave", 12)
 	f.run()
@@ -621,6 +622,7 @@ func runC14Dual(s *sim.Sim) {
 		}
 	}
 	f.closeFn = d.Close
+	f.overlapOK = true
 	f.closeAt = s.Range("close-at", 0, 45)
 	f.interleave = s.Draw("interleave", 12)
 	f.run()
@@ -797,6 +799,7 @@ func runC14FullRT(s *sim.Sim) {
 		}
 	}
 	f.closeFn = frt.Close
+	f.overlapOK = true
 	f.closeAt = s.Range("close-at", 0, 70)
 	f.interleave = s.Draw("interleave", 12)
 	f.run()
